@@ -227,20 +227,23 @@ def validate_trace(events, wdir, module="TraceAidl", chunk_events=1500, nproc=No
     nproc = nproc or NPROC
     os.makedirs(wdir, exist_ok=True)
     # chunks are cut at scenario boundaries (Reset events)
-    chunks, cur = [], []
+    # (also cut by size: a chunk is one JSON file that TLC holds in memory)
+    chunks, cur, cur_bytes = [], [], 0
     for e in events:
-        if e["ev"] == "Reset" and len(cur) >= chunk_events:
+        line = json.dumps(e, ensure_ascii=True)
+        if e["ev"] == "Reset" and (len(cur) >= chunk_events or cur_bytes >= 30_000_000):
             chunks.append(cur)
-            cur = []
-        cur.append(e)
+            cur, cur_bytes = [], 0
+        cur.append(line)
+        cur_bytes += len(line)
     if cur:
         chunks.append(cur)
     args = []
     for k, ch in enumerate(chunks):
         tfile = os.path.join(wdir, f"trace{k}.ndjson")
         with open(tfile, "w", encoding="ascii") as f:
-            for e in ch:
-                f.write(json.dumps(e, ensure_ascii=True) + "\n")
+            for line in ch:
+                f.write(line + "\n")
         args.append((tfile, k, wdir, module, timeout))
     t0 = time.time()
     fails, gen, dist = [], 0, 0
